@@ -86,7 +86,7 @@ class MultibyteSpec(Spec):
     def __init__(self, cfg, tier):
         super().__init__(cfg, tier)
         self.w = w = cfg["byte_width"]
-        self.time_budget = 30 if tier == "quick" else 600
+        self.time_budget = 150 if tier == "quick" else 600       # a cap, not a target
         self.words = [tuple(b[:w]) for b in WORD_BYTES[:cfg["values"]]]
         acts = []
         for rdy in (0, 1):
